@@ -6,23 +6,23 @@ sys.path.insert(0, HERE)
 
 AI = "abstract interpretation of the function's MIR over opaque tokens and small integers, case-split by an oracle that answers what the environment decides (K6'), compared with a table written from the property text"
 TECH = {
-    "C01": "MIR comparison truth tables + field coverage + accounting placement (scope / dominance); put/Record order by " + AI,
+    "C01": AI + " (ranger::Store::process_message with awaits driven to completion on a grid of local key sets, ranges, peer fingerprints and split configurations; put / Record order; as_fingerprint over a hasher model) + accounting placement (scope / dominance)",
     "C02": AI + " (put admission/prune, Record order) + provenance/dominance rules for the prefix bounds (custom rustc_private driver)",
-    "C03": "interprocedural call-site dominance (ensures fixpoint), who-may-construct; validate_entry/validate_empty acceptance tables by " + AI,
+    "C03": "interprocedural call-site dominance (ensures fixpoint), who-may-construct, provenance of the reference time at every call site; validate_entry / validate_empty / signature verification tables by " + AI,
     "C05": AI + " (index selection, selector, full query window over QueryIterator::next with persistent state, stale-index scan) + provenance rules",
     "C06": "bottom-up effect summaries (Mutate/MayCommit over the call graph) + who-may-write / who-may-commit over MIR + " + AI + " (shared-transaction manager as a transition table)",
-    "C07": AI + " (merge table, import transaction, actor import handler, secret_key) + who-may-write (field, table)",
-    "C08": AI + " (get_range scans and bounds, fingerprint fold, get_first) + key-shape / component-map provenance",
-    "C09": AI + " with a byte-buffer model in which an out-of-bounds index or failed unwrap diverges (decoder and encoder grids) + panic-site audit + tag agreement",
+    "C07": AI + " (merge table, import transaction, actor import handler, secret_key, the RPC import handler, the file-format migration) + who-may-write (field, table)",
+    "C08": AI + " (get_range scans and bounds, fingerprint fold, bytewise xor on concrete values, get_first) + key-shape / component-map provenance",
+    "C09": AI + " with a byte-buffer model in which an out-of-bounds index or failed unwrap diverges (decoder and encoder grids; identifier constructor; Display/FromStr round trip on concrete strings; ticket decoder) + panic-site audit",
     "C10": AI + " with awaits driven to completion: acceptor and initiator sessions over all frame scripts up to a bound, into_outcome on every final state; + gate table + panic-site audit",
     "C11": AI + " (four transition tables, tie-break) + who-may-write + dominance rules in the live actor",
-    "C12": "who-may-call + edge dominance + provenance over MIR; per-subscriber delivery future by " + AI,
+    "C12": "who-may-call + edge dominance + provenance over MIR; per-subscriber delivery future and policy semantics by " + AI,
     "C13": "control dependence of the head write; news predicate, insert-keeps-maximum and bounded newest-first encoding by " + AI + " (abstract collections)",
-    "C14": "effect-based gate dominance + who-may-call; gates and open/close counting by " + AI,
-    "C15": AI + " (matches normal form, set_download_policy transaction) + literal agreement + who-may-write",
-    "C16": "program-derived exhaustiveness over the fields of Tables + provenance lifted to the API parameter + discarded-result analysis; namespace bounds by " + AI,
-    "C17": AI + " (registration simulated on every table size and position) + constant evaluation + reverse-iteration rule",
-    "C18": "sibling agreement (provenance), loop must-pass-through, path evaluation over MIR",
+    "C14": "effect-based gate dominance + who-may-call; gates, open/close counting and the RPC open/close handlers by " + AI,
+    "C15": AI + " (matches on concrete strings, set_download_policy transaction, Display/FromStr round trip, RPC handlers, file-format migration) + who-may-write",
+    "C16": "program-derived exhaustiveness over the fields of Tables + provenance lifted to the API parameter + discarded-result analysis; remove_replica on a concrete namespace with erased ranges decided on sample keys, gc-protect task and callback, RPC drop handler by " + AI,
+    "C17": AI + " (registration simulated on every table size and position incl. other documents' rows, RPC handler, file-format migration) + constant evaluation + reverse-iteration rule",
+    "C18": AI + " (migrations 001 / 004 over an abstract records table, entry_put, index reader, file-format migration) + must-pass-through per migration + dominance",
 }
 NA = {
     "C04": "quantifies over interleavings of writes, lossy broadcast, aborted sessions and restarts across 2-5 replicas; it has no "
